@@ -168,6 +168,7 @@ loop:
 			// This is not a fileSeed, we have nothing to validate
 			continue
 		}
+		verifYield("PlanValidate.feed")
 		select {
 		case <-ctx.Done():
 			interrupted = true
